@@ -35,6 +35,8 @@ class KeepAliveFamily(ScenarioFamily):
                 cfg["alpn"] = ["h2", "http/1.1"] if h2 else ["http/1.1"]
             if r.random() < 0.3:
                 cfg["keepalive_timeout"] = r.choice([0.02, 0.05, 0.2])
+                if gen.mk_rng(seed, "c09-408/" + h).random() < 0.4:
+                    cfg["idle_408"] = True
             eps[f"{h}:{port}"] = cfg
         ops = []
         n = r.randint(3, 10 if tier == "quick" else 16)
@@ -61,6 +63,20 @@ class KeepAliveFamily(ScenarioFamily):
                             "endpoint": f"{r.choice(hosts)}:{port}"})
                 if r.random() < 0.5:
                     ops.append({"op": "sleep", "d": r.choice([0.0, 0.001, 0.01])})
+        rpx = gen.mk_rng(seed, "c09proxy")
+        if rpx.random() < 0.3:
+            # the same histories through a proxy: forwarding (http), tunnelling (https, and
+            # ws: a CONNECT tunnel that stays in clear) or SOCKS5
+            if rpx.random() < 0.6:
+                eps["px.test:8080"] = {"kind": "http_proxy"}
+                pool["proxy"] = {"url": "http://px.test:8080"}
+                if not tls and rpx.random() < 0.5:
+                    for op in ops:
+                        if op.get("op") == "request":
+                            op["url"] = "ws" + op["url"][4:]
+            else:
+                eps["sk.test:1080"] = {"kind": "socks", "auth": None}
+                pool["proxy"] = {"url": "socks5://sk.test:1080"}
         scn = {"seed": seed, "exec": self.ex, "pool": pool,
                "net": {"latency": r.choice(["zero", "fixed", "small"]),
                        "seg": r.choice(["whole", "random"]), "endpoints": eps},
@@ -93,6 +109,7 @@ def keepalive_oracle(res, scn):
     call_origin = None
     pool_closing = False
     call_t = None
+    sent_on_idle = False
 
     def origin_of(url):
         u = url.decode()
@@ -117,7 +134,10 @@ def keepalive_oracle(res, scn):
         k, now = e[2], e[1]
         if k == "wire_open":
             wires[e[3]] = {"endpoint": tuple(e[4]), "state": "busy", "t_idle": None,
-                           "srv_closed": None, "h2": False, "nreq": 0}
+                           "srv_closed": None, "h2": False, "nreq": 0,
+                           # the origin a proxied connection was made for (its endpoint is
+                           # the proxy's): that of the first request sent on it
+                           "origin": None}
         elif k == "origin_proto":
             wires[e[3]]["h2"] = e[5] == "h2"
         elif k in ("srv_idle_close", "srv_forced_close"):
@@ -125,16 +145,25 @@ def keepalive_oracle(res, scn):
                 # server timers are evaluated lazily: the FIN was deliverable from the
                 # timer's own instant
                 wires[e[3]]["srv_closed"] = e[4] if len(e) > 4 else now
+                if cur_wire == e[3] and sent_on_idle and not wires[e[3]]["h2"] and \
+                        wires[e[3]]["srv_closed"] <= call_t - TOL:
+                    # the server's close only shows in the ledger now (its timers run when
+                    # the wire is touched), but it had reached the client before the call
+                    # began: the idle socket was readable when the connection was chosen
+                    w.violate("C09", "request-sent-on-server-closed-connection",
+                              {"token": cur, "wire": e[3], "closed_at": wires[e[3]]["srv_closed"],
+                               "call_at": call_t})
+                    return
                 if call_t is not None:
                     eligible_at_call = [(i, is_eligible(x, call_t)) for i, x in wires.items()
-                                        if x["endpoint"] == call_origin and x["state"] == "idle"]
+                                        if (x["origin"] or x["endpoint"]) == call_origin and x["state"] == "idle"]
         elif k == "call":
             cur = e[4]
             call_t = now
             call_origin = origin_of(e[6])
             cur_wire = None
             eligible_at_call = [(i, is_eligible(x, now)) for i, x in wires.items()
-                                if x["endpoint"] == call_origin and x["state"] == "idle"]
+                                if (x["origin"] or x["endpoint"]) == call_origin and x["state"] == "idle"]
             # (K) idle connections never outnumber the keep-alive limit once an operation
             # has completed
             idle = [i for i, x in wires.items() if x["state"] == "idle"]
@@ -152,6 +181,9 @@ def keepalive_oracle(res, scn):
             e = (e[0], e[1], e[2], e[5])
             if cur_wire is None:
                 cur_wire = e[3]
+                sent_on_idle = x["state"] == "idle"
+                if x["origin"] is None:
+                    x["origin"] = call_origin
                 if x["state"] == "idle":
                     ok = dict(eligible_at_call).get(e[3], True)
                     if ok is False:
